@@ -12,10 +12,16 @@ open DendroModel
 
 /-! ## vocabulary of the statements -/
 
-/-- the four parallel per-tree lists are equally long, and the distribution has counted as many trees -/
-def Aligned (a : TA) : Prop :=
+/-- the four parallel per-tree lists are equally long and — when `k` — the distribution has counted as many trees -/
+def AlignedK (k : Bool) (a : TA) : Prop :=
   a.elens.length = a.splits.length ∧ a.leafsets.length = a.splits.length ∧
-  a.weights.length = a.splits.length ∧ a.sd.total = a.splits.length
+  a.weights.length = a.splits.length ∧ (k = true → a.sd.total = a.splits.length)
+
+/-- the four parallel per-tree lists are equally long, and the distribution has counted as many trees -/
+def Aligned (a : TA) : Prop := AlignedK true a
+
+/-- the four parallel per-tree lists are equally long (what the per-tree queries `assert`) -/
+def Aligned4 (a : TA) : Prop := AlignedK false a
 
 /-- the stored trees, row by row: what every per-tree query reads -/
 def TA.rows (a : TA) : List (List Nat × List (Option Frac) × Nat × Q) :=
@@ -33,6 +39,33 @@ def ObsEq (a b : SD) : Prop :=
     rooting state `ρ`, every declared rooting is undefined or `ρ` -/
 def Compatible (ρ : Option Bool) (parts : List (Option Bool × List TRec)) : Prop :=
   ∀ p ∈ parts, (p.1 = none ∨ p.1 = ρ) ∧ ∀ t ∈ p.2, t.rooted = ρ
+
+/-- ghost semantics of a history: which trees each array *should* hold, in order, if every operation did what its
+    name says (`add` appends, `ins` inserts like a Python list, `update`/`extend`/`+=` concatenate the source behind
+    the destination, `+` makes a new collection holding both); operations naming a missing register do nothing -/
+def ghostStep (g : List (List TRec)) : Op → List (List TRec)
+  | .new _ _ => g ++ [[]]
+  | .add d t => match g[d]? with
+    | some ts => g.set d (ts ++ [t])
+    | none => g
+  | .ins d i t => match g[d]? with
+    | some ts => g.set d (pyInsert i t ts)
+    | none => g
+  | .upd d s | .ext d s | .iadd d s => match g[d]?, g[s]? with
+    | some x, some y => g.set d (x ++ y)
+    | _, _ => g
+  | .plus a b => match g[a]?, g[b]? with
+    | some x, some y => g ++ [x ++ y]
+    | _, _ => g
+
+def ghostRun (ops : List Op) : List (List TRec) := ops.foldl ghostStep []
+
+/-- an operation of a history respects rooting state `ρ` and settings `fl` -/
+def OpOK (ρ : Option Bool) (fl : Flags) : Op → Prop
+  | .new r f => (r = none ∨ r = ρ) ∧ f = fl
+  | .add _ t => t.rooted = ρ
+  | .ins _ _ t => t.rooted = ρ
+  | _ => True
 
 end DendroModel.C06
 
@@ -200,11 +233,11 @@ theorem foldl_mergeEntry_total (b : SD) (kcs : List (Nat × Q)) (a : SD) :
 theorem merge_total (a b : SD) : (a.merge b).total = a.total + b.total := by
   simp only [SD.merge]; rw [foldl_mergeEntry_total]
 
-theorem aligned_new (r : Option Bool) (f : Flags) : Aligned (TA.new r f) := by
-  simp [Aligned, TA.new, SD.new]
+theorem aligned_new (k : Bool) (r : Option Bool) (f : Flags) : AlignedK k (TA.new r f) := by
+  simp [AlignedK, TA.new, SD.new]
 
-theorem addTree_aligned {a a' : TA} {t : TRec} {idx : Option Int} (ha : Aligned a) (h : addTree a t idx = .ok a') :
-    Aligned a' := by
+theorem addTree_aligned {k : Bool} {a a' : TA} {t : TRec} {idx : Option Int} (ha : AlignedK k a) (h : addTree a t idx = .ok a') :
+    AlignedK k a' := by
   obtain ⟨h1, h2, h3, h4⟩ := ha
   simp only [addTree] at h
   split at h
@@ -213,19 +246,26 @@ theorem addTree_aligned {a a' : TA} {t : TRec} {idx : Option Int} (ha : Aligned 
     · cases h
     · split at h
       · cases h
-        simp only [Aligned, List.length_append, List.length_cons, List.length_nil, countTree_total]
-        omega
+        simp only [AlignedK, List.length_append, List.length_cons, List.length_nil, countTree_total]
+        exact ⟨by omega, by omega, by omega, fun hk => by have := h4 hk; omega⟩
       · cases h
-        simp only [Aligned, pyInsert_length, countTree_total]
-        omega
+        simp only [AlignedK, pyInsert_length, countTree_total]
+        exact ⟨by omega, by omega, by omega, fun hk => by have := h4 hk; omega⟩
 
-theorem absorb_aligned {a b : TA} (ha : Aligned a) (hb : Aligned b) : Aligned (a.absorb b) := by
+theorem addTreeHalf_aligned4 {k : Bool} {a : TA} (t : TRec) (ha : AlignedK k a) : AlignedK false (addTreeHalf a t) := by
+  obtain ⟨h1, h2, h3, _⟩ := ha
+  simp only [addTreeHalf]
+  split
+  · exact ⟨h1, h2, h3, by simp⟩
+  · exact ⟨h1, h2, h3, by simp⟩
+
+theorem absorb_aligned {k : Bool} {a b : TA} (ha : AlignedK k a) (hb : AlignedK k b) : AlignedK k (a.absorb b) := by
   obtain ⟨h1, h2, h3, h4⟩ := ha
   obtain ⟨g1, g2, g3, g4⟩ := hb
-  simp only [Aligned, TA.absorb, List.length_append, merge_total]
-  omega
+  simp only [AlignedK, TA.absorb, List.length_append, merge_total]
+  exact ⟨by omega, by omega, by omega, fun hk => by have := h4 hk; have := g4 hk; omega⟩
 
-theorem update_aligned {a b c : TA} (ha : Aligned a) (hb : Aligned b) (h : update a b = .ok c) : Aligned c := by
+theorem update_aligned {k : Bool} {a b c : TA} (ha : AlignedK k a) (hb : AlignedK k b) (h : update a b = .ok c) : AlignedK k c := by
   simp only [update] at h
   split at h
   · cases h; exact ha
@@ -242,12 +282,53 @@ theorem update_aligned {a b c : TA} (ha : Aligned a) (hb : Aligned b) (h : updat
     · cases h
       exact absorb_aligned (a := { a with rooting := b.rooting, flags := b.flags }) ha hb
 
-theorem plus_aligned {a b c : TA} (ha : Aligned a) (hb : Aligned b) (h : plus a b = .ok c) : Aligned c := by
+theorem plus_aligned {k : Bool} {a b c : TA} (ha : AlignedK k a) (hb : AlignedK k b) (h : plus a b = .ok c) : AlignedK k c := by
   simp only [plus, extend] at h
   split at h
   · cases h
   · rename_i c0 hc0
-    exact update_aligned (update_aligned (aligned_new _ _) ha hc0) hb h
+    exact update_aligned (update_aligned (aligned_new _ _ _) ha hc0) hb h
+
+theorem argmaxFrom_isSome (l : List Q) : ∀ (i : Nat) (b : Nat × Q), (argmaxFrom l i (some b)).isSome = true := by
+  induction l with
+  | nil => intro i b; rfl
+  | cons x r ih =>
+    intro i b
+    obtain ⟨j, m⟩ := b
+    simp only [argmaxFrom]
+    split <;> exact ih _ _
+
+theorem take_zip' {α β : Type} : ∀ (n : Nat) (l1 : List α) (l2 : List β), (l1.take n).zip (l2.take n) = (l1.zip l2).take n
+  | 0, _, _ => by simp
+  | _ + 1, [], _ => by simp
+  | _ + 1, _ :: _, [] => by simp
+  | n + 1, x :: l1, y :: l2 => by simp [take_zip' n l1 l2]
+
+theorem drop_zip' {α β : Type} : ∀ (n : Nat) (l1 : List α) (l2 : List β), (l1.drop n).zip (l2.drop n) = (l1.zip l2).drop n
+  | 0, _, _ => by simp
+  | _ + 1, [], _ => by simp
+  | _ + 1, _ :: _, [] => by simp
+  | n + 1, x :: l1, y :: l2 => by simp [drop_zip' n l1 l2]
+
+theorem zip_pyInsert {α β : Type} (i : Int) (x : α) (y : β) (l1 : List α) (l2 : List β) (h : l1.length = l2.length) :
+    (pyInsert i x l1).zip (pyInsert i y l2) = pyInsert i (x, y) (l1.zip l2) := by
+  simp only [pyInsert, List.length_zip, h, Nat.min_self]
+  rw [List.zip_append (by simp [h]), List.zip_cons_cons, take_zip', drop_zip']
+
+theorem zip4_snoc {α β γ δ : Type} (l1 : List α) (l2 : List β) (l3 : List γ) (l4 : List δ) (a : α) (b : β) (c : γ) (d : δ)
+    (h2 : l2.length = l1.length) (h3 : l3.length = l1.length) (h4 : l4.length = l1.length) :
+    (l1 ++ [a]).zip ((l2 ++ [b]).zip ((l3 ++ [c]).zip (l4 ++ [d]))) = l1.zip (l2.zip (l3.zip l4)) ++ [(a, b, c, d)] := by
+  rw [List.zip_append (by omega : l3.length = l4.length),
+      List.zip_append (by simp [List.length_zip]; omega : l2.length = (l3.zip l4).length),
+      List.zip_append (by simp [List.length_zip]; omega : l1.length = (l2.zip (l3.zip l4)).length)]
+  rfl
+
+theorem zip4_pyInsert {α β γ δ : Type} (i : Int) (l1 : List α) (l2 : List β) (l3 : List γ) (l4 : List δ) (a : α) (b : β) (c : γ) (d : δ)
+    (h2 : l2.length = l1.length) (h3 : l3.length = l1.length) (h4 : l4.length = l1.length) :
+    (pyInsert i a l1).zip ((pyInsert i b l2).zip ((pyInsert i c l3).zip (pyInsert i d l4))) =
+      pyInsert i (a, b, c, d) (l1.zip (l2.zip (l3.zip l4))) := by
+  rw [zip_pyInsert i c d l3 l4 (by omega), zip_pyInsert i b _ l2 _ (by simp [List.length_zip]; omega),
+      zip_pyInsert i a _ l1 _ (by simp [List.length_zip]; omega)]
 
 theorem set_forall {α : Type} {P : α → Prop} {l : List α} (h : ∀ a ∈ l, P a) (d : Nat) (x : α) (hx : P x) :
     ∀ a ∈ l.set d x, P a := by
@@ -256,15 +337,15 @@ theorem set_forall {α : Type} {P : α → Prop} {l : List α} (h : ∀ a ∈ l,
   · exact h a h1
   · subst h1; exact hx
 
-theorem step_aligned {regs regs' : List TA} {op : Op} (hr : ∀ a ∈ regs, Aligned a) (h : step regs op = .ok regs') :
-    ∀ a ∈ regs', Aligned a := by
+theorem step_aligned {k : Bool} {regs regs' : List TA} {op : Op} (hr : ∀ a ∈ regs, AlignedK k a) (h : step regs op = .ok regs') :
+    ∀ a ∈ regs', AlignedK k a := by
   cases op with
   | new r f =>
     simp only [step] at h; cases h
     intro a ha
     rcases List.mem_append.1 ha with h1 | h1
     · exact hr a h1
-    · simp at h1; subst h1; exact aligned_new r f
+    · simp at h1; subst h1; exact aligned_new k r f
   | add d t =>
     simp only [step] at h
     split at h
@@ -330,7 +411,26 @@ theorem step_aligned {regs regs' : List TA} {op : Op} (hr : ∀ a ∈ regs, Alig
       · cases h
     · cases h
 
-theorem run_aligned (ops : List Op) : ∀ (regs : List TA), (∀ a ∈ regs, Aligned a) → ∀ a ∈ (run regs ops).1, Aligned a := by
+theorem afterError_aligned4 {regs : List TA} (op : Op) (e : Err) (hr : ∀ a ∈ regs, AlignedK false a) :
+    ∀ a ∈ afterError regs op e, AlignedK false a := by
+  simp only [afterError]
+  split
+  · split
+    · rename_i d t
+      split
+      · rename_i x hx
+        exact set_forall hr d _ (addTreeHalf_aligned4 t (hr x (List.mem_of_getElem? hx)))
+      · exact hr
+    · rename_i d i t
+      split
+      · rename_i x hx
+        exact set_forall hr d _ (addTreeHalf_aligned4 t (hr x (List.mem_of_getElem? hx)))
+      · exact hr
+    · exact hr
+  · exact hr
+
+/-- the four lists stay aligned whatever happens, failed asserts included -/
+theorem run_aligned4 (ops : List Op) : ∀ (regs : List TA), (∀ a ∈ regs, AlignedK false a) → ∀ a ∈ (run regs ops).1, AlignedK false a := by
   induction ops with
   | nil => intro regs hr; simpa [run] using hr
   | cons op ops ih =>
@@ -339,8 +439,28 @@ theorem run_aligned (ops : List Op) : ∀ (regs : List TA), (∀ a ∈ regs, Ali
     split
     · rename_i regs' h
       exact ih regs' (step_aligned hr h)
-    · exact ih regs hr
+    · rename_i e h
+      exact ih _ (afterError_aligned4 op e hr)
 
+/-- … and in step with the distribution's tree count as long as no `assert` of `add_tree` fired -/
+theorem run_aligned (ops : List Op) : ∀ (regs : List TA), (∀ a ∈ regs, AlignedK true a) →
+    (∀ e ∈ (run regs ops).2, e ≠ some Err.assertion) → ∀ a ∈ (run regs ops).1, AlignedK true a := by
+  induction ops with
+  | nil => intro regs hr _; simpa [run] using hr
+  | cons op ops ih =>
+    intro regs hr hlog
+    simp only [run] at hlog ⊢
+    split
+    · rename_i regs' h
+      simp only [h] at hlog
+      exact ih regs' (step_aligned hr h) (fun e he => hlog e (by simp [he]))
+    · rename_i e h
+      simp only [h] at hlog
+      have hne : e ≠ Err.assertion := by
+        intro he; exact hlog (some e) (by simp) (by rw [he])
+      have : afterError regs op e = regs := by simp [afterError, hne]
+      rw [this] at hlog ⊢
+      exact ih regs hr (fun e' he' => hlog e' (by simp [he']))
 
 /-! ### what a collection holding exactly `trees` must show (specification side) -/
 
@@ -684,7 +804,7 @@ theorem rep_rows {ρ : Option Bool} {fl : Flags} {a : TA} {trees : List TRec} (h
   rfl
 
 theorem rep_aligned {ρ : Option Bool} {fl : Flags} {a : TA} {trees : List TRec} (h : TARep ρ fl a trees) : Aligned a := by
-  simp [Aligned, h.splits, h.elens, h.leafsets, h.weights, h.sd.total]
+  simp [Aligned, AlignedK, h.splits, h.elens, h.leafsets, h.weights, h.sd.total]
 
 theorem rep_empty_iff {ρ : Option Bool} {fl : Flags} {a : TA} {trees : List TRec} (h : TARep ρ fl a trees) :
     a.splits.isEmpty = trees.isEmpty := by
@@ -819,32 +939,57 @@ end DendroModel.C06.Aux
 namespace DendroModel.C06
 open DendroModel DendroModel.C06.Aux
 
-/-- **aligned**: over the whole operation alphabet (new / add / insert at any index / update / extend /
-`+=` / `+`, rejected operations included, self-merges included), every array reachable from nothing
-keeps its four per-tree lists equally long and in step with the distribution's tree count — so the
-`assert`s guarding the per-tree queries (`scores`, `sums`) can never fire. -/
-theorem aligned (ops : List Op) : ∀ a ∈ (run [] ops).1, Aligned a :=
-  run_aligned ops [] (by simp)
+/-- **aligned**: over the whole operation alphabet (new / add / insert at any index / update / extend / `+=` / `+`,
+self-merges included, rejected operations included — also the one rejection that happens *after* the distribution
+was touched, the length `assert` inside `add_tree`), every array reachable from nothing keeps its four per-tree
+lists equally long; and as long as that `assert` never fired, also in step with the distribution's tree count. -/
+theorem aligned (ops : List Op) :
+    (∀ a ∈ (run [] ops).1, Aligned4 a) ∧
+    ((∀ e ∈ (run [] ops).2, e ≠ some Err.assertion) → ∀ a ∈ (run [] ops).1, Aligned a) :=
+  ⟨run_aligned4 ops [] (by simp), run_aligned ops [] (by simp)⟩
 
-/-- the per-tree queries are defined (their length `assert` holds) on every reachable array -/
-theorem queries_defined (ops : List Op) : ∀ a ∈ (run [] ops).1, (scores a).isSome ∧ (sums a).isSome := by
+/-- the length `assert` guarding the per-tree score queries never fires on a reachable array -/
+theorem queries_defined (ops : List Op) : ∀ a ∈ (run [] ops).1, (scores a).isSome ∧ (sums a).isSome ∧
+    (a.splits ≠ [] → (mccIndex a).isSome) := by
   intro a ha
-  obtain ⟨_, h2, _, _⟩ := aligned ops a ha
-  simp [scores, sums, h2]
+  obtain ⟨h1, h2, _, _⟩ := (aligned ops).1 a ha
+  refine ⟨by simp [scores, h2], by simp [sums, h2], ?_⟩
+  intro hne
+  simp only [mccIndex, scores, h2, bne_self_eq_false, Bool.false_eq_true, if_false]
+  cases hs : a.splits with
+  | nil => exact absurd hs hne
+  | cons sp r =>
+    cases hl : a.leafsets with
+    | nil => rw [hs, hl] at h2; simp at h2
+    | cons l r' => simp [argmaxFrom, argmaxFrom_isSome]
 
-/-- **insert_any_index**: inserting a tree at any (also negative or out-of-range) index succeeds exactly
-when appending does, counts the same, and stores the same rows up to order. -/
+/-- **insert_any_index**: inserting a tree at any (also negative or out-of-range) index is rejected exactly when
+appending is, with the same error; on success it leaves the same distribution, rooting and settings, and — on an
+array whose lists are aligned — stores the same row `r` at the Python `list.insert` position instead of at the end,
+so the rows are the same up to order. -/
 theorem insert_any_index (a : TA) (t : TRec) (i : Int) :
     (∀ e, addTree a t none = .error e → addTree a t (some i) = .error e) ∧
-    (∀ x, addTree a t none = .ok x → ∃ y, addTree a t (some i) = .ok y ∧ y.sd = x.sd ∧ y.rooting = x.rooting ∧
-      y.rows.length = x.rows.length) := by
+    (∀ x, addTree a t none = .ok x → ∃ y r, addTree a t (some i) = .ok y ∧ y.sd = x.sd ∧ y.rooting = x.rooting ∧
+      y.flags = x.flags ∧
+      (Aligned4 a → x.rows = a.rows ++ [r] ∧ y.rows = pyInsert i r a.rows ∧ y.rows.Perm x.rows)) := by
   simp only [addTree]
   cases validateRooting a.rooting t.rooted with
   | none => simp
   | some r =>
     cases hc : (!a.flags.ignoreLens && a.sd.flags.ignoreLens && !t.entries.isEmpty) with
     | true => simp
-    | false => simp [TA.rows, pyInsert_length]
+    | false =>
+      refine ⟨by simp, ?_⟩
+      intro x hx
+      simp only [Bool.false_eq_true, if_false, Except.ok.injEq] at hx
+      subst hx
+      refine ⟨_, (t.entries.map (·.split),
+        (if a.flags.ignoreLens then t.entries.map (fun _ => none) else t.entries.map (fun e => some (e.len.getD Frac.zero))),
+        t.leafset, weightOf a.flags.useWeights t), rfl, rfl, rfl, rfl, ?_⟩
+      rintro ⟨h1, h2, h3, _⟩
+      simp only [TA.rows]
+      rw [zip4_snoc _ _ _ _ _ _ _ _ h1 h2 h3, zip4_pyInsert i _ _ _ _ _ _ _ _ h1 h2 h3]
+      exact ⟨rfl, rfl, (pyInsert_perm i _ _).symm⟩
 
 /-- **add_perm** (clause a): adding the same trees one at a time in any two orders never fails (all trees of one
 rooting state `ρ`, declared rooting undefined or `ρ`) and gives the same observable — counts, total weight,
@@ -884,23 +1029,31 @@ theorem merge_any_partition (ρ : Option Bool) (fl : Flags) (r0 : Option Bool)
   rw [rep_rows rm, rep_rows rs]
   exact hperm.map _
 
-/-- **update_never_fails**: merging an *empty* collection is a no-op whatever its rooting state and settings
-(the SumTrees idle-worker case), and merging into an empty collection never fails. -/
-theorem update_never_fails (a b : TA) :
-    (b.splits = [] → update a b = .ok a) ∧ (a.splits = [] → ∃ c, update a b = .ok c) := by
+/-- **update_ok_iff**: `update` (= `extend` = `+=`) is rejected in exactly one situation — both collections hold trees
+and they differ in rooting state or in one of the three settings. In particular an *empty* `other` is never rejected,
+whatever its rooting state and settings (the SumTrees idle-worker case), and then nothing changes. -/
+theorem update_ok_iff (a b : TA) :
+    ((∃ c, update a b = .ok c) ↔ (b.splits = [] ∨ a.splits = [] ∨ (a.rooting = b.rooting ∧ a.flags = b.flags))) ∧
+    (b.splits = [] → update a b = .ok a) := by
   constructor
+  · by_cases hb : b.splits = []
+    · simp [update, hb]
+    · by_cases ha : a.splits = []
+      · simp [update, hb, ha]
+      · have hb' : b.splits.isEmpty = false := by cases h : b.splits <;> simp_all
+        have ha' : a.splits.isEmpty = false := by cases h : a.splits <;> simp_all
+        have hfl : a.flags = b.flags ↔ (a.flags.ignoreLens = b.flags.ignoreLens ∧ a.flags.ignoreAges = b.flags.ignoreAges ∧
+            a.flags.useWeights = b.flags.useWeights) := by
+          cases a.flags; cases b.flags; simp
+        simp only [update, hb', ha', hb, ha, false_or, hfl, Bool.false_eq_true, if_false, Bool.not_false, if_true]
+        by_cases h1 : a.rooting = b.rooting
+        · by_cases h2 : a.flags.ignoreLens = b.flags.ignoreLens
+          · by_cases h3 : a.flags.ignoreAges = b.flags.ignoreAges
+            · by_cases h4 : a.flags.useWeights = b.flags.useWeights <;> simp [h1, h2, h3, h4]
+            · simp [h1, h2, h3]
+          · simp [h1, h2]
+        · simp [h1]
   · intro h; simp [update, h]
-  · intro h
-    by_cases hb : b.splits.isEmpty
-    · exact ⟨a, by simp [update, hb]⟩
-    · exact ⟨_, by simp only [update, hb, h]; rfl⟩
-
-/-- an operation of a history respects rooting state `ρ` and settings `fl` -/
-def OpOK (ρ : Option Bool) (fl : Flags) : Op → Prop
-  | .new r f => (r = none ∨ r = ρ) ∧ f = fl
-  | .add _ t => t.rooted = ρ
-  | .ins _ _ t => t.rooted = ρ
-  | _ => True
 
 end DendroModel.C06
 
@@ -1008,121 +1161,134 @@ theorem mem_consensusOrder (sd : SD) (θ : Q) (s : Nat) :
     exact ⟨⟨kc, hkc, rfl⟩, hle⟩
 
 
-def RegsRep (ρ : Option Bool) (fl : Flags) (regs : List TA) : Prop := ∀ a ∈ regs, ∃ trees, TARep ρ fl a trees
+theorem f2_get {α β : Type} {R : α → β → Prop} {l1 : List α} {l2 : List β} (h : List.Forall₂ R l1 l2) :
+    ∀ d : Nat, (l1[d]? = none ∧ l2[d]? = none) ∨ ∃ x y, l1[d]? = some x ∧ l2[d]? = some y ∧ R x y := by
+  induction h with
+  | nil => intro d; left; simp
+  | cons hxy _ ih =>
+    intro d
+    cases d with
+    | zero => right; exact ⟨_, _, by simp, by simp, hxy⟩
+    | succ d => simpa using ih d
 
-theorem step_rep {ρ : Option Bool} {fl : Flags} {regs : List TA} {op : Op} (hr : RegsRep ρ fl regs) (hop : OpOK ρ fl op) :
-    (∃ regs', step regs op = .ok regs' ∧ RegsRep ρ fl regs') ∨ step regs op = .error .badReg := by
+theorem f2_set {α β : Type} {R : α → β → Prop} {l1 : List α} {l2 : List β} (h : List.Forall₂ R l1 l2) {x : α} {y : β}
+    (hxy : R x y) : ∀ d : Nat, List.Forall₂ R (l1.set d x) (l2.set d y) := by
+  induction h with
+  | nil => intro d; simp
+  | cons hab hrest ih =>
+    intro d
+    cases d with
+    | zero => simpa using List.Forall₂.cons hxy hrest
+    | succ d => simpa using List.Forall₂.cons hab (ih d)
+
+theorem f2_snoc {α β : Type} {R : α → β → Prop} {l1 : List α} {l2 : List β} (h : List.Forall₂ R l1 l2) {x : α} {y : β}
+    (hxy : R x y) : List.Forall₂ R (l1 ++ [x]) (l2 ++ [y]) := by
+  induction h with
+  | nil => simpa using List.Forall₂.cons hxy List.Forall₂.nil
+  | cons hab _ ih => simpa using List.Forall₂.cons hab ih
+
+theorem f2_imp {α β : Type} {R S : α → β → Prop} (hi : ∀ a b, R a b → S a b) {l1 : List α} {l2 : List β}
+    (h : List.Forall₂ R l1 l2) : List.Forall₂ S l1 l2 := by
+  induction h with
+  | nil => exact List.Forall₂.nil
+  | cons hab _ ih => exact List.Forall₂.cons (hi _ _ hab) ih
+
+theorem step_ghost {ρ : Option Bool} {fl : Flags} {regs : List TA} {g : List (List TRec)} {op : Op}
+    (hr : List.Forall₂ (TARep ρ fl) regs g) (hop : OpOK ρ fl op) :
+    (∃ regs', step regs op = .ok regs' ∧ List.Forall₂ (TARep ρ fl) regs' (ghostStep g op)) ∨
+    (step regs op = .error .badReg ∧ ghostStep g op = g) := by
   cases op with
   | new r f =>
     left
     obtain ⟨h1, h2⟩ := hop
     subst h2
-    refine ⟨_, rfl, ?_⟩
-    intro a ha
-    rcases List.mem_append.1 ha with h | h
-    · exact hr a h
-    · simp at h; subst h; exact ⟨[], rep_new ρ f r h1⟩
+    exact ⟨_, rfl, f2_snoc hr (rep_new ρ f r h1)⟩
   | add d t =>
-    simp only [step]
-    cases hx : regs[d]? with
-    | none => right; rfl
-    | some x =>
-      left
-      obtain ⟨trees, rx⟩ := hr x (List.mem_of_getElem? hx)
-      obtain ⟨a', h1, r1⟩ := rep_add rx t hop none
-      exact ⟨_, by simp only [h1], set_forall hr d a' ⟨_, r1⟩⟩
+    rcases f2_get hr d with ⟨h1, h2⟩ | ⟨x, ts, hx, hts, rx⟩
+    · right; simp [step, ghostStep, h1, h2]
+    · left
+      obtain ⟨a', e1, r1⟩ := rep_add rx t hop none
+      refine ⟨_, by simp only [step, hx, e1]; rfl, ?_⟩
+      simp only [ghostStep, hts]
+      exact f2_set hr r1 d
   | ins d i t =>
-    simp only [step]
-    cases hx : regs[d]? with
-    | none => right; rfl
-    | some x =>
-      left
-      obtain ⟨trees, rx⟩ := hr x (List.mem_of_getElem? hx)
-      obtain ⟨a', h1, r1⟩ := rep_add rx t hop (some i)
-      exact ⟨_, by simp only [h1], set_forall hr d a' ⟨_, r1⟩⟩
+    rcases f2_get hr d with ⟨h1, h2⟩ | ⟨x, ts, hx, hts, rx⟩
+    · right; simp [step, ghostStep, h1, h2]
+    · left
+      obtain ⟨a', e1, r1⟩ := rep_add rx t hop (some i)
+      refine ⟨_, by simp only [step, hx, e1]; rfl, ?_⟩
+      simp only [ghostStep, hts]
+      exact f2_set hr r1 d
   | upd d s =>
-    simp only [step]
-    cases hx : regs[d]? with
-    | none => right; rfl
-    | some x =>
-      cases hy : regs[s]? with
-      | none => right; rfl
-      | some y =>
-        left
-        obtain ⟨tx, rx⟩ := hr x (List.mem_of_getElem? hx)
-        obtain ⟨ty, ry⟩ := hr y (List.mem_of_getElem? hy)
-        obtain ⟨c, h1, r1⟩ := rep_update rx ry
-        exact ⟨_, by simp only [h1], set_forall hr d c ⟨_, r1⟩⟩
+    rcases f2_get hr d with ⟨h1, h2⟩ | ⟨x, tx, hx, htx, rx⟩
+    · right; simp [step, ghostStep, h1, h2]
+    · rcases f2_get hr s with ⟨h1, h2⟩ | ⟨y, ty, hy, hty, ry⟩
+      · right; simp [step, ghostStep, hx, htx, h1, h2]
+      · left
+        obtain ⟨c, e1, r1⟩ := rep_update rx ry
+        refine ⟨_, by simp only [step, hx, hy, e1]; rfl, ?_⟩
+        simp only [ghostStep, htx, hty]
+        exact f2_set hr r1 d
   | ext d s =>
-    simp only [step, extend]
-    cases hx : regs[d]? with
-    | none => right; rfl
-    | some x =>
-      cases hy : regs[s]? with
-      | none => right; rfl
-      | some y =>
-        left
-        obtain ⟨tx, rx⟩ := hr x (List.mem_of_getElem? hx)
-        obtain ⟨ty, ry⟩ := hr y (List.mem_of_getElem? hy)
-        obtain ⟨c, h1, r1⟩ := rep_update rx ry
-        exact ⟨_, by simp only [h1], set_forall hr d c ⟨_, r1⟩⟩
+    rcases f2_get hr d with ⟨h1, h2⟩ | ⟨x, tx, hx, htx, rx⟩
+    · right; simp [step, ghostStep, h1, h2]
+    · rcases f2_get hr s with ⟨h1, h2⟩ | ⟨y, ty, hy, hty, ry⟩
+      · right; simp [step, ghostStep, hx, htx, h1, h2]
+      · left
+        obtain ⟨c, e1, r1⟩ := rep_update rx ry
+        refine ⟨_, by simp only [step, extend, hx, hy, e1]; rfl, ?_⟩
+        simp only [ghostStep, htx, hty]
+        exact f2_set hr r1 d
   | iadd d s =>
-    simp only [step, extend]
-    cases hx : regs[d]? with
-    | none => right; rfl
-    | some x =>
-      cases hy : regs[s]? with
-      | none => right; rfl
-      | some y =>
-        left
-        obtain ⟨tx, rx⟩ := hr x (List.mem_of_getElem? hx)
-        obtain ⟨ty, ry⟩ := hr y (List.mem_of_getElem? hy)
-        obtain ⟨c, h1, r1⟩ := rep_update rx ry
-        exact ⟨_, by simp only [h1], set_forall hr d c ⟨_, r1⟩⟩
+    rcases f2_get hr d with ⟨h1, h2⟩ | ⟨x, tx, hx, htx, rx⟩
+    · right; simp [step, ghostStep, h1, h2]
+    · rcases f2_get hr s with ⟨h1, h2⟩ | ⟨y, ty, hy, hty, ry⟩
+      · right; simp [step, ghostStep, hx, htx, h1, h2]
+      · left
+        obtain ⟨c, e1, r1⟩ := rep_update rx ry
+        refine ⟨_, by simp only [step, extend, hx, hy, e1]; rfl, ?_⟩
+        simp only [ghostStep, htx, hty]
+        exact f2_set hr r1 d
   | plus a b =>
-    simp only [step]
-    cases hx : regs[a]? with
-    | none => right; rfl
-    | some x =>
-      cases hy : regs[b]? with
-      | none => right; rfl
-      | some y =>
-        left
-        obtain ⟨tx, rx⟩ := hr x (List.mem_of_getElem? hx)
-        obtain ⟨ty, ry⟩ := hr y (List.mem_of_getElem? hy)
+    rcases f2_get hr a with ⟨h1, h2⟩ | ⟨x, tx, hx, htx, rx⟩
+    · right; simp [step, ghostStep, h1, h2]
+    · rcases f2_get hr b with ⟨h1, h2⟩ | ⟨y, ty, hy, hty, ry⟩
+      · right; simp [step, ghostStep, hx, htx, h1, h2]
+      · left
         have hroot : x.rooting = none ∨ x.rooting = ρ := by
           rcases rx.root with h | ⟨_, h⟩
           · exact Or.inr h
           · exact Or.inl h
         have r0 : TARep ρ fl (TA.new x.rooting x.flags) [] := by
           rw [rx.flags]; exact rep_new ρ fl _ hroot
-        obtain ⟨c1, h1, r1⟩ := rep_update r0 rx
-        obtain ⟨c2, h2, r2⟩ := rep_update r1 ry
-        refine ⟨_, by simp only [plus, extend, h1, h2]; rfl, ?_⟩
-        intro z hz
-        rcases List.mem_append.1 hz with h | h
-        · exact hr z h
-        · simp at h; subst h; exact ⟨_, r2⟩
+        obtain ⟨c1, e1, r1⟩ := rep_update r0 rx
+        obtain ⟨c2, e2, r2⟩ := rep_update r1 ry
+        refine ⟨_, by simp only [step, hx, hy, plus, extend, e1, e2]; rfl, ?_⟩
+        simp only [ghostStep, htx, hty]
+        exact f2_snoc hr (by simpa using r2)
 
-theorem run_rep {ρ : Option Bool} {fl : Flags} (ops : List Op) : ∀ (regs : List TA), RegsRep ρ fl regs → (∀ op ∈ ops, OpOK ρ fl op) →
-    RegsRep ρ fl (run regs ops).1 ∧ ∀ e ∈ (run regs ops).2, e = none ∨ e = some Err.badReg := by
+theorem run_ghost {ρ : Option Bool} {fl : Flags} (ops : List Op) : ∀ (regs : List TA) (g : List (List TRec)),
+    List.Forall₂ (TARep ρ fl) regs g → (∀ op ∈ ops, OpOK ρ fl op) →
+    List.Forall₂ (TARep ρ fl) (run regs ops).1 (ops.foldl ghostStep g) ∧
+      ∀ e ∈ (run regs ops).2, e = none ∨ e = some Err.badReg := by
   induction ops with
-  | nil => intro regs hr _; exact ⟨by simpa [run] using hr, by simp [run]⟩
+  | nil => intro regs g hr _; exact ⟨by simpa [run] using hr, by simp [run]⟩
   | cons op ops ih =>
-    intro regs hr hops
+    intro regs g hr hops
     have hop := hops op (by simp)
     have hrest : ∀ o ∈ ops, OpOK ρ fl o := fun o ho => hops o (by simp [ho])
-    rcases step_rep hr hop with ⟨regs', h1, r1⟩ | h1
-    · obtain ⟨i1, i2⟩ := ih regs' r1 hrest
-      simp only [run, h1]
+    rcases step_ghost hr hop with ⟨regs', h1, r1⟩ | ⟨h1, hg⟩
+    · obtain ⟨i1, i2⟩ := ih regs' _ r1 hrest
+      simp only [run, h1, List.foldl_cons]
       refine ⟨i1, ?_⟩
       intro e he
       simp only [List.mem_cons] at he
       rcases he with h | h
       · exact Or.inl h
       · exact i2 e h
-    · obtain ⟨i1, i2⟩ := ih regs hr hrest
-      simp only [run, h1]
+    · have hae : afterError regs op Err.badReg = regs := by simp [afterError]
+      obtain ⟨i1, i2⟩ := ih regs g hr hrest
+      simp only [run, h1, List.foldl_cons, hg, hae]
       refine ⟨i1, ?_⟩
       intro e he
       simp only [List.mem_cons] at he
@@ -1135,21 +1301,47 @@ end DendroModel.C06.Aux
 namespace DendroModel.C06
 open DendroModel DendroModel.C06.Aux
 
-/-- **compatible_history** (all interleavings): in *every* history over the operation alphabet — new arrays with
+/-- **history_holds_its_trees** (all interleavings): in *every* history over the operation alphabet — new arrays with
 declared rooting undefined or `ρ`, trees of rooting state `ρ` added or inserted anywhere, `update` / `extend` / `+=` /
-`+` between any two arrays incl. empty ones and an array with itself — no operation is ever rejected (except for
-naming a register that does not exist), and every array finally holds, row for row, some list of trees whose
-one-at-a-time accession gives the same observable. -/
-theorem compatible_history (ρ : Option Bool) (fl : Flags) (ops : List Op) (h : ∀ op ∈ ops, OpOK ρ fl op) :
+`+` between any two arrays incl. empty ones, nested merges and an array with itself — no operation is ever rejected
+(except for naming a register that does not exist), and the i-th array finally holds exactly the trees the ghost
+semantics `ghostRun` assigns to it: it is aligned, and row for row and in its observable it equals the one-at-a-time
+accession of that very list of trees. -/
+theorem history_holds_its_trees (ρ : Option Bool) (fl : Flags) (ops : List Op) (h : ∀ op ∈ ops, OpOK ρ fl op) :
     (∀ e ∈ (run [] ops).2, e = none ∨ e = some Err.badReg) ∧
-    ∀ a ∈ (run [] ops).1, ∃ trees s, addAll (TA.new none fl) trees = .ok s ∧ ObsEq a.sd s.sd ∧ a.rows = s.rows := by
-  obtain ⟨h1, h2⟩ := run_rep (ρ := ρ) (fl := fl) ops [] (by intro a ha; simp at ha) h
-  refine ⟨h2, ?_⟩
-  intro a ha
-  obtain ⟨trees, ra⟩ := h1 a ha
-  obtain ⟨s, hs, rs⟩ := rep_addAll trees (rep_new ρ fl none (Or.inl rfl)) ra.rooted
-  refine ⟨trees, s, hs, sdrep_obs ra.sd rs.sd (by simp), ?_⟩
+    List.Forall₂ (fun a ts => ∃ s, addAll (TA.new none fl) ts = .ok s ∧ ObsEq a.sd s.sd ∧ a.rows = s.rows ∧ Aligned a)
+      (run [] ops).1 (ghostRun ops) := by
+  obtain ⟨h1, h2⟩ := run_ghost (ρ := ρ) (fl := fl) ops [] [] List.Forall₂.nil h
+  refine ⟨h2, f2_imp ?_ h1⟩
+  intro a ts ra
+  obtain ⟨s, hs, rs⟩ := rep_addAll ts (rep_new ρ fl none (Or.inl rfl)) ra.rooted
+  refine ⟨s, hs, sdrep_obs ra.sd rs.sd (by simp), ?_, rep_aligned ra⟩
   rw [rep_rows ra, rep_rows rs]; simp
+
+/-- **histories_agree** (the statement itself): two compatible histories — any two ways of partitioning, ordering,
+nesting and merging — that leave, by the ghost semantics, the same trees up to order in array `i` of the first and
+array `j` of the second, leave there the same observable (counts, weights, per-split multisets of lengths and ages)
+and the same stored rows up to order. -/
+theorem histories_agree (ρ : Option Bool) (fl : Flags) (ops1 ops2 : List Op)
+    (h1 : ∀ op ∈ ops1, OpOK ρ fl op) (h2 : ∀ op ∈ ops2, OpOK ρ fl op) (i j : Nat) (a b : TA) (ta tb : List TRec)
+    (ha : (run [] ops1).1[i]? = some a) (hb : (run [] ops2).1[j]? = some b)
+    (hta : (ghostRun ops1)[i]? = some ta) (htb : (ghostRun ops2)[j]? = some tb) (hp : ta.Perm tb) :
+    ObsEq a.sd b.sd ∧ a.rows.Perm b.rows := by
+  obtain ⟨r1, _⟩ := run_ghost (ρ := ρ) (fl := fl) ops1 [] [] List.Forall₂.nil h1
+  obtain ⟨r2, _⟩ := run_ghost (ρ := ρ) (fl := fl) ops2 [] [] List.Forall₂.nil h2
+  have ra : TARep ρ fl a ta := by
+    rcases f2_get r1 i with ⟨e1, _⟩ | ⟨x, y, e1, e2, r⟩
+    · rw [ha] at e1; cases e1
+    · rw [ha] at e1; cases e1
+      rw [ghostRun] at hta; rw [hta] at e2; cases e2; exact r
+  have rb : TARep ρ fl b tb := by
+    rcases f2_get r2 j with ⟨e1, _⟩ | ⟨x, y, e1, e2, r⟩
+    · rw [hb] at e1; cases e1
+    · rw [hb] at e1; cases e1
+      rw [ghostRun] at htb; rw [htb] at e2; cases e2; exact r
+  refine ⟨sdrep_obs ra.sd rb.sd hp, ?_⟩
+  rw [rep_rows ra, rep_rows rb]
+  exact hp.map _
 
 /-- **sumtrees_schedule_independent** (clause d): for every number of workers `nw` (also more workers than files),
 every assignment of the input files to workers (`assign`, so some workers may get no file at all) and every order in
@@ -1202,8 +1394,9 @@ theorem scores_of_obs {a b : SD} (h : ObsEq a b) (leafset : Nat) (splits : List 
   exact ⟨trivial, trivial⟩
 
 /-- **mcc_scores_of_obs** (clause c): two aligned collections with the same observable and the same rows up to
-order have the same multiset of per-tree credibility scores — hence the same maximum credibility score, attained
-by the same topologies. -/
+order have the same multiset of per-tree credibility scores (the pairing with topologies is `mcc_topologies_of_obs`;
+the code's first-strict-maximum index `mccIndex` depends on the order of the rows and is tied to the code by the
+correspondence only). -/
 theorem mcc_scores_of_obs {a b : TA} (ha : Aligned a) (hb : Aligned b) (h : ObsEq a.sd b.sd) (hr : a.rows.Perm b.rows) :
     ∃ la lb, scores a = some la ∧ scores b = some lb ∧ la.Perm lb := by
   obtain ⟨a1, a2, a3, _⟩ := ha
@@ -1267,6 +1460,31 @@ example : ∀ op ∈ [Op.new none exFl, Op.new (some false) exFl, Op.add 0 exT1,
   intro op hop
   simp only [List.mem_cons, List.not_mem_nil, or_false] at hop
   rcases hop with rfl | rfl | rfl | rfl | rfl | rfl <;> simp [OpOK, exT1]
+/-- the ghost semantics of two different ways to collect {exT1, exT2, exT1}: serially into array 0, or as two parts,
+    an empty third one and a nested `+` — the hypotheses of `histories_agree` hold with `i = 0`, `j = 4` -/
+def exSerial : List Op := [Op.new none exFl, Op.add 0 exT1, Op.add 0 exT2, Op.ins 0 (-1) exT1]
+def exNested : List Op := [Op.new none exFl, Op.new (some false) exFl, Op.new none exFl, Op.add 1 exT1, Op.add 0 exT2,
+  Op.add 0 exT1, Op.upd 0 2, Op.plus 1 2, Op.plus 3 0]
+
+example : (ghostRun exSerial)[0]? = some [exT1, exT1, exT2] := by decide
+example : (ghostRun exNested)[4]? = some [exT1, exT2, exT1] := by decide
+example : [exT1, exT1, exT2].Perm [exT1, exT2, exT1] := by decide
+example : (∀ op ∈ exSerial, OpOK (some false) exFl op) ∧ (∀ op ∈ exNested, OpOK (some false) exFl op) := by
+  constructor <;> intro op hop <;> simp only [exSerial, exNested, List.mem_cons, List.not_mem_nil, or_false] at hop <;>
+    rcases hop with rfl | rfl | rfl | rfl | rfl | rfl | rfl | rfl | rfl <;> simp [OpOK, exT1, exT2]
+/-- … and the model indeed ends with three trees counted in both -/
+example : ((run [] exSerial).1[0]?.map (·.sd.total), (run [] exNested).1[4]?.map (·.sd.total)) = (some 3, some 3) := by decide
+
+/-- `update_ok_iff`: the rejecting side is inhabited (two non-empty arrays of different rooting) -/
+example : (match addTree (TA.new none exFl) exT1 none, addTree (TA.new none exFl) { exT1 with rooted := some true } none with
+    | .ok a, .ok b => (match update a b with | .error e => some e | .ok _ => none)
+    | _, _ => none) = some Err.incRooting := by decide
+
+/-- the `assert` of `add_tree` is reachable (array adopts foreign settings, then adds): the distribution has then counted
+    one tree more than the lists hold, while the four lists stay aligned (`aligned`, first part) -/
+example : (let r := run [] [Op.new none ⟨true, true, true⟩, Op.new none exFl, Op.add 1 exT1, Op.upd 0 1, Op.add 0 exT1]
+    (r.2, r.1[0]?.map (fun a => (a.sd.total, a.splits.length, a.leafsets.length)))) =
+    ([none, none, none, none, some Err.assertion], some (2, 1, 1)) := by decide
 end Examples
 
 end DendroModel.C06
